@@ -103,6 +103,32 @@ func GenPath(t *rapid.T, g *type1.Glyph, contours int, maxSegs int, frac bool) (
 }
 
 func genStemList(t *rapid.T, label string) []funit.Int16 {
+	if rapid.IntRange(0, 5).Draw(t, label+"regular") == 0 {
+		// regular stem groups as real fonts have them (the three stems of an
+		// m or an E: equal outer widths, centres equally spaced - what the
+		// hstem3/vstem3 commands can express), with 0-2 other stems before,
+		// between and after, in ascending order
+		var s []funit.Int16
+		pos := rapid.IntRange(-400, 100).Draw(t, label+"start")
+		plain := func() {
+			for k := rapid.IntRange(0, 2).Draw(t, label+"plain"); k > 0; k-- {
+				w := rapid.IntRange(1, 60).Draw(t, label+"pw")
+				s = append(s, funit.Int16(pos), funit.Int16(pos+w))
+				pos += w + rapid.IntRange(1, 80).Draw(t, label+"pgap")
+			}
+		}
+		plain()
+		for k := rapid.IntRange(1, 2).Draw(t, label+"triples"); k > 0; k-- {
+			w := 2 * rapid.IntRange(1, 40).Draw(t, label+"w")
+			w1 := 2 * rapid.IntRange(1, 40).Draw(t, label+"w1")
+			g := (w+w1)/2 + rapid.IntRange(1, 120).Draw(t, label+"g")
+			c0 := pos + w/2
+			s = append(s, funit.Int16(c0-w/2), funit.Int16(c0+w/2), funit.Int16(c0+g-w1/2), funit.Int16(c0+g+w1/2), funit.Int16(c0+2*g-w/2), funit.Int16(c0+2*g+w/2))
+			pos = c0 + 2*g + w/2 + rapid.IntRange(1, 80).Draw(t, label+"tgap")
+			plain()
+		}
+		return s
+	}
 	n := rapid.IntRange(0, 4).Draw(t, label+"n")
 	if n == 0 {
 		return nil
